@@ -591,26 +591,24 @@ func (b *BaseStore) Load(ctx context.Context, amount int) error {
 
 			span.AddEvent("store-head-loaded")
 
-			// the log panics when asked to keep more entries than the joined log holds
-			size := amount
-			if size > 0 && size > oplog.Len()+joinable(oplog, l) {
-				size = -1
-			}
-
+			// joined without a limit and cut afterwards: the log panics when asked to keep more
+			// entries than it lists once the join is done, and how many that will be cannot be
+			// told beforehand: a join takes nothing in below a head the log already has, and
+			// the log remembers who named an entry as next also after a cut has dropped the one
+			// that did, so that a joined head may not be taken for a head
 			span.AddEvent("store-heads-joining")
-			if _, inErr = oplog.Join(l, size); inErr != nil {
+			if _, inErr = oplog.Join(l, -1); inErr != nil {
 				// the join refuses the whole log when one of its entries is refused. A load
 				// follows next and refs again, down to entries the replicator had refused
 				// when they were first fetched: the entries that had been merged then must
 				// not be lost with them now
 				if kept, ok := b.acceptedEntriesOnly(l); ok {
-					size = amount
-					if size > 0 && size > oplog.Len()+joinable(oplog, kept) {
-						size = -1
-					}
-
-					_, inErr = oplog.Join(kept, size)
+					_, inErr = oplog.Join(kept, -1)
 				}
+			}
+
+			if inErr == nil && amount > 0 {
+				b.keepNewest(oplog, amount)
 			}
 
 			if inErr != nil {
@@ -917,43 +915,26 @@ func (b *BaseStore) LoadFromSnapshot(ctx context.Context) error {
 	return nil
 }
 
-// joinable counts the entries of l that a join into oplog takes in. The join walks l from its
-// heads along next and goes no further wherever it meets an entry oplog already holds (a
-// store that is loaded a second time has the heads already): what lies below such an entry
-// is not taken in, although oplog does not hold it
-func joinable(oplog ipfslog.Log, l ipfslog.Log) int {
-	entries := l.GetEntries()
-
-	stack := []cid.Cid{}
-	for _, h := range l.Heads().Slice() {
-		stack = append(stack, h.GetHash())
+// keepNewest cuts the log down to its amount newest entries, as a join with a limit does
+func (b *BaseStore) keepNewest(oplog ipfslog.Log, amount int) {
+	if oplog.Values().Len() <= amount {
+		return
 	}
 
-	seen := map[string]struct{}{}
-	count := 0
-	for len(stack) > 0 {
-		hash := stack[len(stack)-1]
-		stack = stack[:len(stack)-1]
-
-		if _, ok := seen[hash.String()]; ok {
-			continue
-		}
-		seen[hash.String()] = struct{}{}
-
-		e, ok := entries.Get(hash.String())
-		if !ok || e.GetLogID() != oplog.GetID() {
-			continue
-		}
-
-		if _, ok := oplog.Get(hash); ok {
-			continue
-		}
-
-		count++
-		stack = append(stack, e.GetNext()...)
+	none, err := ipfslog.NewLog(b.IPFS(), b.Identity(), &ipfslog.LogOptions{
+		ID:               oplog.GetID(),
+		AccessController: b.AccessController(),
+		SortFn:           b.SortFn(),
+		IO:               b.options.IO,
+	})
+	if err != nil {
+		b.logger.Warn("unable to create log", zap.Error(err))
+		return
 	}
 
-	return count
+	if _, err := oplog.Join(none, amount); err != nil {
+		b.logger.Warn("unable to cut the log down", zap.Error(err))
+	}
 }
 
 // ownEntriesOnly returns l itself, or a log made of l's entries without those written for
